@@ -50,7 +50,8 @@ BASE = [
     ("c", "lin(0 : 0 1)", True), ("c", "lin(1:2.5 2.5)", True),
     ("c", "range(0 1 : 0.25)", True), ("c", "range(0 5)", True), ("c", "range(-2 2 : 0.5)", True),
     ("c", "Range(1 2 : 1)", True), ("c", "range(0 1 : 2)", True), ("c", "range(1 0)", True), ("c", "range(1 1)", True),
-    ("c", "range(0 3 : 1.25)", True),
+    ("c", "range(0 3 : 1.25)", True), ("c", "range(0 0.3:0.1)", False), ("c", "range(0.1 0.7 : 0.2)", False),
+    ("c", "range(0 1 : 0.3)", False), ("c", "range(-0.3 0.3 : 0.15)", False),
     ("c", "fac(3:2)", True), ("c", "fac(4:2:0.5:1)", True), ("c", "factor(0:2)", True), ("c", "fact(1:3::7)", True),
     ("c", "fac(5:1.5:2:0.25)", True), ("c", "fac(3)", True), ("c", "fac(6:0.1:3:1)", False),
     ("c", "fac(2:0)", True), ("c", "fac(2:-1:2)", True), ("c", "fac(2:2:0)", True), ("c", "fac(4294967295:2)", True),
@@ -126,6 +127,9 @@ MALFORMED = [
     "fac(3:2:3:4:5)", "fac(3:0:2)", "fac(3:-2)", "fac(3:2:-1)", "fac(3 : 2 : 3 : 4)", "fac(3:2", "fac 3", "facto(3)",
     "fac(4294967296:2)", "fac(3:2:3:x)", "fac(3:x)",
     "x", "-", "+", ".", "1e", "e1", "(1 2)", "1 2 (", ":1", "1:2", "1;2",
+    "lin(abc)", "lin(4 ; 0 1)", "lin(-3 : 0 1)", "lin(e)", "lin(4 5)", "lin(4x)", "lin( x )", "lin(+)", "lin(4\t: 0 1)", "\tlin(;)",
+    "fac(3x)", "fac(x)", "fac(3 ; 2)", "fac(-1)", "fac(3:0::1)", "fac(3:-1::2)", "fac(3:1e-320::2)", "FAC( 7 )x", "lin(0)", "lin(0 : 2 3)",
+    "range(1 0)", "range(1 0 : 0.5)", "range(2 2 : 1)", "range(0 1 : -1)", "range(3 -3)",
 ]
 
 PROFILES = [
@@ -214,6 +218,14 @@ def _gen_desc(r):
         st = r.choice(["0.5", "0.25", "1", "2", "0.125", "1.5", "4", None])
         if st is None and w not in (5,):
             st = "0.5"
+        if not exact:
+            # non-dyadic bounds and steps: the quotient width/step is a whole number or far from one
+            from decimal import Decimal
+            lo = Decimal(r.choice(["0", "0.1", "-0.3", "1.7", "-2", "0.05"]))
+            stp = Decimal(r.choice(["0.1", "0.2", "0.3", "0.05", "0.15", "0.7", "1.1"]))
+            wd = stp * r.choice([1, 2, 3, 7, 10, 12]) + r.choice([Decimal(0), Decimal(0), stp / 2, stp / 4])
+            txt = "%s(%s%s %s%s:%s%s%s)" % (r.choice(["range", "Range"]), sp(), lo, lo + wd, sp(), sp(), stp, sp())
+            return "c", txt, False, fam
         txt = "%s(%s%d %d%s%s)" % (r.choice(["range", "Range", "RANGE"]), sp(), a, a + w, sp(), "" if st is None else ":%s%s%s" % (sp(), st, sp()))
         return "c", txt, True, fam
     if fam == "fac":
@@ -350,7 +362,7 @@ def _buffers(top):
 
 ARGSRC = [
     ("lin", ["4   0 1", "4, 0, 1", " 4 0  1", "4 0 1", "2,-1;2", "8 1 3 9", "4", "4 0", "x 0 1", "4 x 1", "0 0 1", "4294967295 0 1", "1 2.5 2.5", " 4 0 1", "4  0 1", ""]),
-    ("range", ["0 1 0.25", "0 1", "-2 2 0.5", "1 0 0.5", "1 1 1", "0 1 2", "0 1 0", "0 1 x", "0 3 1.25 7"]),
+    ("range", ["0 0.3 0.1", "0 1 0.3", "0.1 0.7 0.2 ", "0 1 0.25", "0 1", "-2 2 0.5", "1 0 0.5", "1 1 1", "0 1 2", "0 1 0", "0 1 x", "0 3 1.25 7", "x 1 0.5", "", "1", "0 x 0.5"]),
     ("fac", ["3  2", "3, 2,  0.5", "3", "3 2", "3 2 0.5", "3 2 0.5 1", "0 2", "3 0", "3 -1", "3 2 0", "3 2 -1", "x", "3 x", "3 2 x", "3 2 0.5 x",
              "4294967295 2", "5 1.5 2 0.25 9"]),
 ]
@@ -365,9 +377,10 @@ def _fromiter(top):
             # the created generator gets slot 1 (when accepted); the source stays slot 0
             for n in range(0, min(top, 2) + 1):
                 for seq in itertools.product("razcw", repeat=n):
-                    lines, ns = _opseq_lines(seq, True, start_slots=2)
+                    ex = not any(t in text for t in ("0.3", "0.1", "0.7", "0.2 "))
+                    lines, ns = _opseq_lines(seq, ex, start_slots=2)
                     out.append(("from:%d:%s" % (k, "".join(seq)),
-                                ["it begin", src, "it from " + kind, "it use 1"] + lines + _finish(ns, True)
+                                ["it begin", src, "it from " + kind, "it use 1"] + lines + _finish(ns, ex)
                                 + ["it use 0", "it xvalue", "it consume d", "it advance"]))
             k += 1
     # generators, buffers and partly consumed texts as argument sources
@@ -412,7 +425,8 @@ def _extreme():
 
 
 KEYS = [("abc,def", None), ("abc def gh", None), ("a b,c", ","), ("a, b;c/d:e", None), ("x", None), ("", None), ("a,,b", None),
-        (",a", None), ("a,", None), ("k1;k2;k3", ";"), ("one two", ""), (" lead", None), ("a:b c", ": "), ("ab", None)]
+        (",a", None), ("a,", None), ("k1;k2;k3", ";"), ("one two", ""), (" lead", None), ("a:b c", ": "), ("ab", None), ("  ", None), (" ,", None),
+        ("a  ", None), (",", ",")]
 
 
 def _keys():
@@ -492,9 +506,27 @@ def _consume():
     return out
 
 
+def _plumbing():
+    """metatype plumbing of every kind of source, values that are no description, mpt_range_set with
+    non-iterator values, an unknown element type for mpt_iterator_consume"""
+    out = []
+    creates = ["it create " + H("lin(4 : 0 1)"), "it create " + H("fac(3:2)"), "it create " + H("1 2 3"),
+               "it profile 4 " + H("bound 1 2 3"), "it profile 4 " + H("poly 1 0"), "it poly none " + H("1 0"),
+               "it string %s null" % H("1 2 3"), "it buffer 610062620000", "it args 610062620000"]
+    for k, c in enumerate(creates):
+        out.append(("plumb:%d" % k, ["it begin", c, "it meta", "it consume Z", "it advance", "it meta", "it advance", "it advance",
+                                     "it advance", "it consume Z", "it meta", "it clone", "it use 1", "it meta"]))
+    for k, t in enumerate(["1 2 3", "  ab c", "", " ", "x"]):
+        out.append(("plumb:rest:%d" % k, ["it begin", "it string %s null" % H(t), "it rest", "it advance", "it rest", "it reset", "it value",
+                                          "it rest", "it advance", "it rest", "it advance", "it rest"]))
+    out.append(("plumb:val", ["it begin", "it fromval lin", "it fromval range", "it fromval fac", "it rangeset vec2", "it rangeset vec3",
+                              "it rangeset vecnull", "it rangeset type", "it rangeset itnull"]))
+    return out
+
+
 def scripts(tier, seed, scale=1):
     top = 3 if tier == "quick" else 4
-    return (_exhaustive(top) + _strings(top) + _buffers(top) + _fromiter(top) + _polydirect(top) + _extreme() + _words(top) + _keys() + _history() + _consume() + _boundary()
+    return (_exhaustive(top) + _strings(top) + _buffers(top) + _fromiter(top) + _polydirect(top) + _extreme() + _words(top) + _keys() + _history() + _consume() + _boundary() + _plumbing()
             + _random(tier, seed, scale))
 
 
